@@ -42,7 +42,7 @@ ASSUMPTIONS = [
     "indexes from a counter",
     "the real sendloop / process_packet run over the frame-level bus",
 ]
-EXAMPLES = {"quick": 40, "thorough": 1000}
+EXAMPLES = {"quick": 40, "thorough": 5000}
 MIN_NONTRIVIAL = {"quick": 100, "thorough": 2000}
 
 LO = 1000
